@@ -571,6 +571,9 @@ class Machine:
         if not can_f:
             s.decisions.append(True); s.add_pc(may); return True
         s.stats['forks'] += 1
+        if s.opts.get('fork_sites') and s.stack:
+            f0 = s.stack[-1]; i0 = f0.fn.blocks[f0.bi][1][f0.ii]
+            s.stats['fork@%s:%s:%s %s' % (f0.fn.name[:60], f0.fn.blocks[f0.bi][0], i0.op, getattr(i0, 'res', ''))] += 1
         s.new_prefixes.append(list(s.decisions) + [False])
         s.decisions.append(True); s.add_pc(may)
         return True
